@@ -102,7 +102,7 @@ PROPS['C06'] = dict(
     props_file='Props/C06.v',
     kernels=['hours_to_seconds', 'link_travel_time_seconds', 'point_along_link', 'traverse_up_to', 'rt_no_time_left', 'rt_add_traversal',
              'rt_add_link_not_traversed', 'veh_tick_distance'],
-    step_runs={Q: GEN + [('requests', 80, 40)], T: [('generic', 1500, 40), ('requests', 1500, 60), ('fullsteps', 500, 96)]},
+    step_runs={Q: GEN + [('requests', 80, 40), ('routes', 80, 30)], T: [('generic', 1500, 40), ('requests', 1500, 60), ('fullsteps', 500, 96), ('routes', 1500, 40)]},
     known_keys={'stuck_after_arrival': ['activity', 'cause']},
     trusted_base=['oracle `mid` (h3 snapping inside point_along_link) and `gc` are arbitrary functions in the theorems; their answers are recorded from the real h3 calls in every correspondence case'],
 )
